@@ -24,13 +24,14 @@ EXTENDS ManifestManager, Json
 VARIABLES l,        \* number of trace lines consumed
           sends,    \* sends[r]: replies the manager WROTE to request r (reply hooks)
           missing,  \* requests whose Submit call had not returned although a reply was due (last step)
+          chain,    \* the scripted chain's own knowledge: "inflight" iff a deployment query is held at its gate
           held,     \* leases the provider holds according to the STIMULI (won, not removed, manager alive)
           drift,    \* number of non-conforming steps
           viol      \* set of <<line, property name>>
 
 Log == ndJsonDeserialize("trace.ndjson")
 
-tvars == <<vars, l, sends, missing, held, drift, viol>>
+tvars == <<vars, l, sends, missing, chain, held, drift, viol>>
 
 ToReqs(x) == [i \in 1..Len(x) |-> [r |-> x[i][1], mf |-> x[i][2]]]
 ToAnn(x)  == [i \in 1..Len(x) |-> [lease |-> x[i][1], mf |-> x[i][2]]]
@@ -109,6 +110,9 @@ AnnounceToHeld == \A i \in 1..Len(ann) : ann[i].lease \in held
 
 SendsAtMostOne == \A r \in Reqs : Len(sends[r]) <= 1
 NoHang == missing = <<>>
+\* QuiescentAllReplied with quiescence judged by the chain itself ("all gates released"), not by the manager's belief
+\* that a query is in flight
+ChainQuietAllReplied == chain = "idle" => \A r \in 1..nsub : Len(replies[r]) = 1
 
 Failing ==
      (IF AtMostOneReply THEN {} ELSE {"AtMostOneReply"})
@@ -117,10 +121,11 @@ Failing ==
   \cup (IF AnnounceToHeld THEN {} ELSE {"AnnounceToHeld"})
   \cup (IF QuiescentAllReplied THEN {} ELSE {"QuiescentAllReplied"})
   \cup (IF NoHang THEN {} ELSE {"NoHang"})
+  \cup (IF ChainQuietAllReplied THEN {} ELSE {"ChainQuietAllReplied"})
 
 TraceInit ==
   /\ Init
-  /\ l = 0 /\ sends = EmptyR /\ missing = <<>> /\ held = {} /\ drift = 0 /\ viol = {}
+  /\ l = 0 /\ sends = EmptyR /\ missing = <<>> /\ chain = "idle" /\ held = {} /\ drift = 0 /\ viol = {}
 
 Reset ==
   /\ svc' = "run" /\ mgr' = "none"
@@ -130,7 +135,7 @@ Reset ==
   /\ ann' = <<>> /\ validated' = {} /\ lastValid' = 0
   /\ cnt' = [lw |-> 0, rm |-> 0, upd |-> 0, ferr |-> 0, close |-> 0, drop |-> 0, sw |-> 0]
   /\ act' = [name |-> "Init", arg |-> 0, c |-> 0, k |-> 0]
-  /\ sends' = EmptyR /\ missing' = <<>> /\ held' = {}
+  /\ sends' = EmptyR /\ missing' = <<>> /\ chain' = "idle" /\ held' = {}
   /\ UNCHANGED <<drift, viol>>
 
 TraceNext ==
@@ -138,8 +143,16 @@ TraceNext ==
   /\ l' = l + 1
   /\ LET rec == Log[l + 1] IN
        IF rec.e = "reset" THEN Reset
+       ELSE IF rec.timeout # ""
+       THEN \* The stimulus was delivered and the step did not complete (twice; the check re-runs it alone). Every
+            \* action of the specification completes: if the action for this stimulus is enabled in the observed
+            \* state and the manager's or the service's loop is blocked outside its idle select, the real code hangs
+            \* where the specification does not. (An idle loop means the harness waited for the wrong thing.)
+            /\ UNCHANGED <<vars, sends, missing, chain, held, drift>>
+            /\ viol' = viol \cup (IF rec.blocked /\ ENABLED SpecStep(rec) THEN {<<l + 1, "StepCompletes">>} ELSE {})
        ELSE /\ sends' = AddReplies(sends, rec.sends)
             /\ missing' = rec.missing
+            /\ chain' = rec.chain
             /\ held' = HeldNext(rec)
             /\ \/ Conform(rec) /\ drift' = drift
                \/ /\ ~ENABLED Conform(rec)
